@@ -209,6 +209,23 @@ def subchecks(tier, seed):
                     if t not in seen:
                         seen.add(t)
                         yield t
+        # sizes at the edge of the ranges: one-dimensional Gaussian observations, many frequency bins
+        for its in (1, 2):
+            for K in (2, 3):
+                for p in SP.deviations(0, fixed=dict(base_fixed, iterations=its, K=K, D=1, model='gmm'), core=()):
+                    for ct in ('default', 'diagonal', 'spherical'):
+                        q = dict(p, covtype=ct)
+                        t = SP.tup(q) + (seed, thorough)
+                        if t not in seen:
+                            seen.add(t)
+                            yield t
+                for model in ('cwmm', 'cacgmm'):
+                    for p in SP.deviations(0, fixed=dict(base_fixed, iterations=its, K=K, lead=(22,), model=model),
+                                           core=()):
+                        t = SP.tup(p) + (seed, thorough)
+                        if t not in seen:
+                            seen.add(t)
+                            yield t
         # pairs of the options that interact with the class axis
         for p in SP.full(('model', 'wca', 'saliency', 'mask'), fixed=dict(iterations=2, K=3)):
             t = SP.tup(p) + (seed, thorough)
